@@ -168,6 +168,41 @@ Lemma handle_packets_d_ok id client : forall pks st fl st' fl' evs,
   handle_packets_d st id client pks fl = Ok (st', fl', evs) -> handle_packets st id client pks fl = Ok (st', fl').
 Proof. intros pks st fl st' fl' evs H. rewrite <- handle_packets_erase, H. reflexivity. Qed.
 
+(* ------------------------------------------------------------------ a connection is removed *)
+Lemma disc_ghost_ends st id st' : forallb (fun ev : dev => is_end (snd ev)) (disc_ghost st id st') = true.
+Proof.
+  unfold disc_ghost. destruct (slab_get (r_obufs st) id); [|reflexivity]. destruct (slab_get (r_trackers st) id); [|reflexivity].
+  destruct (slab_get (r_conns st) id) as [c|]; [|reflexivity]. destruct (c_clean c); [reflexivity|].
+  destruct (al_get str_eqb (tr_id t) (r_graveyard st')) as [[ss|]|]; try reflexivity.
+  apply forallb_forall. intros x Hx. apply in_map_iff in Hx as (rq & <- & _). reflexivity.
+Qed.
+
+Lemma handle_disconnection_di st id reason st' tr :
+  CInv st -> LinkInv st -> DI st [] tr ->
+  handle_disconnection st id reason = Ok st' -> DI st' [] (tr ++ disc_ghost st id st').
+Proof.
+  intros HC HL HDI H.
+  destruct (handle_disconnection_cinv _ _ _ _ HC H) as [HC' L1].
+  destruct (handle_disconnection_obs _ _ _ _ H) as (A & _ & EL & _).
+  assert (HDI' : DI st' [] tr).
+  { eapply di_frame; [exact HC|constructor|eapply handle_disconnection_hsub; exact H
+                     |eapply obs_at_sub; exact A|exact L1|lia|exact HDI]. }
+  apply di_add_ends; [apply disc_ghost_ends| |exact HDI'].
+  intros id0 k f i a Hin. unfold disc_ghost in Hin.
+  destruct (slab_get (r_obufs st) id) as [o|] eqn:Ho; [|destruct Hin].
+  destruct (slab_get (r_trackers st) id) as [t|]; [|destruct Hin].
+  destruct (slab_get (r_conns st) id) as [c|]; [|destruct Hin]. destruct (c_clean c); [destruct Hin|].
+  destruct (al_get str_eqb (tr_id t) (r_graveyard st')) as [[ss|]|] eqn:Eg; try destruct Hin.
+  apply in_map_iff in Hin as (rq & E & Hrq). inversion E; subst. apply filter_In in Hrq as [Hrq _].
+  split; [rewrite EL; apply (proj1 HL _ _ Ho)|]. split.
+  - apply al_get_In in Eg. destruct HC' as [_ CI']. pose proof (ci_grave _ _ CI') as F. rewrite Forall_forall in F.
+    specialize (F _ Eg). unfold SessOk in F. cbn [snd] in F. rewrite Forall_forall in F.
+    destruct (F _ Hrq) as [(d & Hd & _ & He) _]. exists d. split; [exact Hd|]. cbn [nxt]. exact He.
+  - intros c0 o0 Ho0 Hl0. destruct (handle_disconnection_frame _ _ _ _ _ H Ho) as (FO & _).
+    rewrite FO in Ho0. destruct (N.eqb_spec c0 id0) as [-> | Hne]; [discriminate|].
+    exfalso. apply Hne. eapply (proj2 HL); eassumption.
+Qed.
+
 (* ------------------------------------------------------------------ the DeviceData event *)
 Lemma handle_device_payload_di cfg st id st' evs tr :
   RInvC cfg st -> r_notif st = [] -> DevEI st -> CInv st -> LinkInv st -> DI st [] tr ->
@@ -197,22 +232,25 @@ Proof.
   pose proof (handle_packets_d_ok _ _ _ _ _ _ _ _ H1) as H1'.
   destruct (handle_packets_cinv _ _ _ _ _ _ _ HC0 H1') as [HC1 _].
   (* reschedule *)
-  assert (X2 : CInv st2 /\ DI st2 [] (tr ++ evs)).
+  assert (X2 : CInv st2 /\ DI st2 [] (tr ++ evs1)).
   { destruct (f_force_ack fl); [|inv_ok; auto].
     split; [eapply reschedule_cinv; eassumption|].
     eapply di_frame_keep; [exact HC1|constructor|eapply reschedule_hsub; exact H2|eapply reschedule_keep; exact H2| |exact HDI1].
     rewrite (reschedule_dl _ _ _ _ H2). apply dl_le_refl. }
   destruct X2 as [HC2 HDI2].
-  assert (X3 : CInv st3 /\ DI st3 [] (tr ++ evs)).
+  assert (X3 : CInv st3 /\ DI st3 [] (tr ++ evs1)).
   { destruct (f_new_data fl); [|inv_ok; auto].
     split; [eapply drain_notifications_cinv; eassumption|].
     eapply di_frame_keep; [exact HC2|constructor|eapply drain_notifications_hsub; exact H3
                           |eapply drain_notifications_keep; exact H3| |exact HDI2].
     rewrite (drain_notifications_dl _ _ H3). apply dl_le_refl. }
   destruct X3 as [HC3 HDI3].
-  destruct (f_disconnect fl); [|inv_ok; exact HDI3].
-  destruct (handle_disconnection_cinv _ _ _ _ HC3 H4) as [_ L4].
-  destruct (handle_disconnection_obs _ _ _ _ H4) as (A & _ & EL & _).
-  eapply di_frame; [exact HC3|constructor|eapply handle_disconnection_hsub; exact H4
-                   |eapply obs_at_sub; exact A|exact L4|lia|exact HDI3].
+  destruct (f_disconnect fl); [|inv_ok; rewrite app_nil_r; exact HDI3].
+  rewrite app_assoc. eapply handle_disconnection_di; [exact HC3| |exact HDI3|exact H4].
+  (* LinkInv at st3 *)
+  destruct (handle_packets_obs _ _ _ _ _ _ _ H1') as [A1 EL1].
+  assert (HL1 : LinkInv st1) by (apply (obs_sub_LinkInv st0 st1); [eapply obs_at_sub; exact A1|rewrite EL1; lia|exact HL0]).
+  assert (HL2 : LinkInv st2).
+  { destruct (f_force_ack fl); [|inv_ok; exact HL1]. eapply keep_LinkInv; [eapply reschedule_keep; exact H2|exact HL1]. }
+  destruct (f_new_data fl); [|inv_ok; exact HL2]. eapply keep_LinkInv; [eapply drain_notifications_keep; exact H3|exact HL2].
 Qed.
